@@ -368,11 +368,31 @@ def rule_charset_pad(ctx: Ctx) -> RuleResult:
             if cur.orelse:
                 branches.append(("else", cur.orelse))
             break
+    # the three per-line lists by role: return TextCanvas(T, A, C) <- T.append(b"".join(LINE)), A.append(LINEA), C.append(LINEC)
+    ret = next((c for n in fi.own_nodes() if isinstance(n, ast.Return) and n.value is not None for c in [n.value] if isinstance(c, ast.Call) and callee_name(c) == "TextCanvas" and len(c.args) >= 3 and all(isinstance(a, ast.Name) for a in c.args[:3])), None)
+    if ret is None:
+        raise AnalysisError("apply_text_layout: `return TextCanvas(text, attr, cs, ...)` not found")
+    acc_t, acc_a, acc_c = (a.id for a in ret.args[:3])
+
+    def appended_to(acc):
+        for c in fi.own_nodes():
+            if isinstance(c, ast.Call) and isinstance(c.func, ast.Attribute) and c.func.attr == "append" and isinstance(c.func.value, ast.Name) and c.func.value.id == acc and c.args:
+                names = [x.id for x in ast.walk(c.args[0]) if isinstance(x, ast.Name)]
+                if names:
+                    return names[-1]
+        raise AnalysisError(f"apply_text_layout: nothing is appended to the accumulator `{acc}`")
+
+    line, linea, linec = appended_to(acc_t), appended_to(acc_a), appended_to(acc_c)
+    # nested helpers that write the attribute runs for the caller
+    attr_helpers = {d.name for d in ast.walk(fi.node) if isinstance(d, ast.FunctionDef) and d is not fi.node and any(isinstance(x, ast.Name) and x.id == linea for x in ast.walk(d))}
+
+    def mentions(body, name):
+        return any(isinstance(x, ast.Name) and x.id == name for b in body for x in ast.walk(b))
+
     for label, body in branches:
-        txt = " ".join(ast.unparse(b) for b in body)
-        emits = "line.append(" in txt
-        attr = "linea" in txt or "attrrange(" in txt
-        chars = "linec" in txt
+        emits = any(isinstance(c, ast.Call) and isinstance(c.func, ast.Attribute) and c.func.attr == "append" and isinstance(c.func.value, ast.Name) and c.func.value.id == line for b in body for c in ast.walk(b))
+        attr = mentions(body, linea) or any(isinstance(c, ast.Call) and isinstance(c.func, ast.Name) and c.func.id in attr_helpers for b in body for c in ast.walk(b))
+        chars = mentions(body, linec)
         if not emits:
             continue
         rr.inst(f"branch {label}", True, {"branch": label, "attribute_runs": attr, "charset_runs": chars})
